@@ -1,0 +1,123 @@
+//go:build verif
+
+// Copyright Istio Authors
+//
+// Licensed under the Apache License, Version 2.0 (the "License");
+// you may not use this file except in compliance with the License.
+// You may obtain a copy of the License at
+//
+//     http://www.apache.org/licenses/LICENSE-2.0
+//
+// Unless required by applicable law or agreed to in writing, software
+// distributed under the License is distributed on an "AS IS" BASIS,
+// WITHOUT WARRANTIES OR CONDITIONS OF ANY KIND, either express or implied.
+// See the License for the specific language governing permissions and
+// limitations under the License.
+
+package model
+
+import (
+	"time"
+
+	discovery "github.com/envoyproxy/go-control-plane/envoy/service/discovery/v3"
+
+	"istio.io/istio/pkg/util/sets"
+	"istio.io/istio/pkg/verif"
+)
+
+// ---------------------------------------------------------------------------------------------
+// C06: the token discipline of the xDS response cache
+// ---------------------------------------------------------------------------------------------
+
+// The LRU store is the hashicorp library's; looking a key up is taken as a function of store and key
+// within one cache operation.
+//
+//verif:pure-method github.com/hashicorp/golang-lru/v2/simplelru.LRUCache.Get
+
+// Assumed: the other store operations touch only the store itself and, through the eviction callback
+// (onEvict), the cache's eviction queue and metrics - never the cache's stamp (token). Nothing is claimed
+// about the eviction queue or the config index.
+//
+//verif:pure-method github.com/hashicorp/golang-lru/v2/simplelru.LRUCache.Add
+//verif:pure-method github.com/hashicorp/golang-lru/v2/simplelru.LRUCache.Remove
+//verif:pure-method github.com/hashicorp/golang-lru/v2/simplelru.LRUCache.Len
+
+// What a cache entry depends on is a function of the entry.
+//
+//verif:pure-method istio.io/istio/pilot/pkg/model.dependents.DependentConfigs
+
+// The CI-only consistency assertion (a goroutine that panics on a changed entry) is not part of the cache's
+// behaviour.
+//
+//verif:opaque (*lruCache).assertUnchanged
+
+// A new store is a function of its configuration.
+//
+//verif:pure github.com/hashicorp/golang-lru/v2/simplelru.NewLRU (*github.com/hashicorp/golang-lru/v2/simplelru.LRU).Len
+
+// from the statement: "once a configuration or endpoint change has been accepted no resource derived
+// from the older state is handed out for a newer snapshot, under any interleaving of generation,
+// invalidation and insertion". Invalidation (Clear / ClearAll) stamps the cache with the time it happened;
+// a generated resource carries the start time of the push it was generated for. At the only place where a
+// resource enters the store: it is not older than the last invalidation, it is strictly newer than what
+// the store holds for the key, and it is stored under its own key, value and push time.
+//
+//verif:call-assert (*lruCache).Add Add 0
+func caOnlyFreshResourcesEnterTheStore(arg0 uint64, arg1 cacheValue, l *lruCache[uint64], k uint64, value *discovery.Resource, pushReq *PushRequest,
+	token CacheToken, f bool, cur cacheValue,
+) bool {
+	return token >= l.token && (!f || token > cur.token) &&
+		arg0 == k && arg1.value == value && arg1.token == token &&
+		pushReq != nil && token == CacheToken(pushReq.Start.UnixNano())
+}
+
+//verif:contract (*lruCache).Add
+//verif:prop C06
+//verif:nosafety
+func ctLruAdd(l *lruCache[uint64], k uint64, entry dependents, pushReq *PushRequest, value *discovery.Resource) {
+	verif.Requires("cache-configured", l != nil && l.store != nil && entry != nil)
+	verif.Requires("ci-only-assertions-off", !l.enableAssertions)
+	was := l.token
+	l.Add(k, entry, pushReq, value)
+	// a resource of a push that started before the last invalidation leaves the cache's stamp alone
+	verif.Ensures("stale-writer-does-not-move-the-stamp", pushReq == nil || CacheToken(pushReq.Start.UnixNano()) >= was || l.token == was)
+	verif.Ensures("stamp-never-goes-back", l.token >= was)
+}
+
+// A lookup on behalf of a push hands out only what was generated for a push at least as new.
+//
+//verif:contract (*lruCache).get
+//verif:prop C06
+//verif:nosafety
+func ctLruGet(l *lruCache[uint64], key uint64, token CacheToken) {
+	verif.Requires("cache-configured", l != nil && l.store != nil)
+	r := l.get(key, token)
+	cv, ok := l.store.Get(key)
+	verif.Ensures("hit-only-if-stored-for-a-push-at-least-as-new", r == nil || (ok && cv.value == r && cv.token >= token))
+}
+
+// Invalidation stamps the cache with a time not before the moment it was asked for, before anything
+// else happens (so that a concurrent writer that started earlier is rejected from then on).
+//
+//verif:contract (*lruCache).Clear
+//verif:prop C06
+//verif:nosafety
+func ctLruClear(l *lruCache[uint64], configs sets.Set[ConfigKey]) {
+	verif.Requires("cache-configured", l != nil && l.store != nil)
+	asked := time.Now()
+	verif.Requires("after-1970", asked.UnixNano() >= 0)
+	l.Clear(configs)
+	verif.Ensures("stamped-with-the-time-of-invalidation", l.token >= CacheToken(asked.UnixNano()))
+	verif.Ensures("eviction-flag-reset", !l.evictedOnClear)
+}
+
+//verif:contract (*lruCache).ClearAll
+//verif:prop C06
+//verif:nosafety
+func ctLruClearAll(l *lruCache[uint64]) {
+	verif.Requires("cache-configured", l != nil && l.store != nil)
+	asked := time.Now()
+	verif.Requires("after-1970", asked.UnixNano() >= 0)
+	l.ClearAll()
+	verif.Ensures("stamped-with-the-time-of-invalidation", l.token >= CacheToken(asked.UnixNano()))
+}
